@@ -83,6 +83,11 @@ impl<'a> WireFormat<'a> for NSEC<'a> {
 
     fn len(&self) -> usize {
         self.next_name.len()
+            + self
+                .type_bit_maps
+                .iter()
+                .map(|record| 2 + record.bitmap.len())
+                .sum::<usize>()
     }
 }
 
